@@ -30,10 +30,40 @@ fn gen_doc(rng: &mut Rng, class: &'static str) -> Option<Doc> {
                 wl::gen_grammar(rng, &p).to_par()
             }
             "lalr-conflicts" => wl::gen_non_lalr_template(rng).to_par(),
-            _ => "%start S\n%%\nS: 'a' | ;;\n".to_string(),
+            "sync-semantic" => {
+                // a diagnostic of the synchronous part that is placed at a definition's position:
+                // left recursion of the start symbol or an unreachable non-terminal
+                let p = wl::Profile { p_guard: 100, n_nts: (1, 3), p_shuffle: 0, ..wl::Profile::base("fine", GType::LL) };
+                let t = wl::gen_grammar(rng, &p).to_par();
+                if rng.chance(1, 2) { t.replacen("\nS:", "\nS: S 'a' |", 1) } else { format!("{t}Unreach: 'a';\n") }
+            }
+            _ => {
+                if rng.chance(1, 3) {
+                    "%start S\n%%\nS: 'a' | ;;\n".to_string()
+                } else {
+                    // a syntax error after at least one complete production
+                    let p = wl::Profile { p_guard: 100, n_nts: (2, 4), p_shuffle: 0, ..wl::Profile::base("fine", GType::LL) };
+                    let t = wl::gen_grammar(rng, &p).to_par();
+                    let t = t.trim_end().to_string();
+                    match rng.below(3) {
+                        0 => t.trim_end_matches(';').to_string() + "\n",
+                        1 => format!("{t};\n"),
+                        _ => format!("{t}\nX: 'a' 'b'\nY: ;\n"),
+                    }
+                }
+            }
         };
+        // blank and comment lines in front of the text: positions differ between versions
+        let text = { let n = rng.below(4); format!("{}{}", "// shift\n".repeat(n), text) };
         if class == "syntax-error" {
             return Some(Doc { text, class });
+        }
+        if class == "sync-semantic" {
+            let rejected_after_parse = matches!(guarded(|| crate::inst::front(&text)), Ok(Err(e)) if matches!(e.stage, crate::inst::Stage::Transform));
+            if rejected_after_parse {
+                return Some(Doc { text, class });
+            }
+            continue;
         }
         // classify with parol itself (in the harness process) so that the class is what we think;
         // the server is an unoptimised build: keep only texts whose analysis is cheap here
@@ -151,7 +181,7 @@ pub fn run(ctx: &Ctx) -> i32 {
     let n = ctx.n(200, 4000);
     let rep = run_sharded(ctx, "c29", n, move |rng, i, rep| {
         let nver = rng.range(2, if i % 2 == 0 { 3 } else { 4 });
-        let classes = ["fine", "not-llk", "lalr-conflicts", "syntax-error"];
+        let classes = ["fine", "not-llk", "lalr-conflicts", "syntax-error", "sync-semantic", "sync-semantic"];
         let mut docs = vec![];
         for v in 0..nver {
             // bias: an expensive erroneous version followed by a fine one is the classic stale case
@@ -333,7 +363,7 @@ pub fn run(ctx: &Ctx) -> i32 {
         rep.counters.remove(&k);
     }
     rep.count_n("distinct_arrival_interleavings", n_inter);
-    let rule = "case = open/change history of 2-4 versions of one document whose texts are drawn from {fine, not LL(3) (background error), LALR with conflicts (background warning), syntax error (synchronous error)} against the real parol-ls over stdio; schedules: controlled (cfg(parol_verif) gates hold every background analysis before it starts and before it publishes; edits, start releases and publish releases are interleaved in a random order, so that edits arrive before, during and after an analysis; every step is awaited through events: synchronous publish, verif/spawned, verif/reached, verif/done) and natural (no gating, 0-20 ms gaps; quiescence = every analysis announced by verif/spawned reported verif/done - events only, wall-clock limits yield inconclusive); checker over the recorded message log: the last publishDiagnostics for the document must carry the final version and equal the reference diagnostics of the final text alone (fresh document, gated so that the background result comes last); distinct by (history classes, schedule, release order, arrival interleaving)";
+    let rule = "case = open/change history of 2-4 versions of one document whose texts are drawn from {fine, not LL(3) (background error), LALR with conflicts (background warning), syntax error after some complete productions (synchronous error), left-recursive / unreachable non-terminal (synchronous diagnostic placed at a definition)}, each shifted by 0-3 leading comment lines, against the real parol-ls over stdio; schedules: controlled (cfg(parol_verif) gates hold every background analysis before it starts and before it publishes; edits, start releases and publish releases are interleaved in a random order, so that edits arrive before, during and after an analysis; every step is awaited through events: synchronous publish, verif/spawned, verif/reached, verif/done) and natural (no gating, 0-20 ms gaps; quiescence = every analysis announced by verif/spawned reported verif/done - events only, wall-clock limits yield inconclusive); checker over the recorded message log: the last publishDiagnostics for the document must carry the final version and equal the reference diagnostics of the final text alone (fresh document, gated so that the background result comes last); distinct by (history classes, schedule, release order, arrival interleaving)";
     let min = if quick { 40 } else { 600 };
     finish(ctx, rep, rule, (min as f64 * ctx.scale) as u64, json!({}), t0.elapsed().as_secs_f64())
 }
